@@ -15,6 +15,8 @@ import Serif.Drive.C15
 import Serif.Drive.C19
 import Serif.Drive.C20
 import Serif.Drive.C17
+import Serif.Drive.C05
+import Serif.Drive.C06
 open Lean Serif.Wire
 
 def dispatch (p fam : String) (c impl : Json) : P Json :=
@@ -28,6 +30,8 @@ def dispatch (p fam : String) (c impl : Json) : P Json :=
   | "C19" => Serif.Drive.C19.handle fam c impl
   | "C20" => Serif.Drive.C20.handle fam c impl
   | "C17" => Serif.Drive.C17.handle fam c impl
+  | "C05" => Serif.Drive.C05.handle fam c impl
+  | "C06" => Serif.Drive.C06.handle fam c impl
   | _ => .error s!"unknown property {p}"
 
 def answer (line : String) : Json :=
